@@ -113,4 +113,42 @@ theorem mark_spec (v : View) (x : Numbering) (pos oZ nZ : Nat) (v' : View) (h : 
         · simp only [h7, Bool.false_eq_true, if_false] at hm
           cases hm
 
+theorem markAt_elem (v : View) (x : Numbering) (pos oZ nZ r z : Nat) (h : markAt v x pos oZ nZ = .ok (r, z)) :
+    ((v.at r).z = 8 ∧ z = oZ) ∨ ((v.at r).z = 7 ∧ z = nZ) := by
+  unfold markAt at h
+  cases hf : findOxygen v x pos with
+  | raises w => simp [hf] at h
+  | unmodelled => simp [hf] at h
+  | ok o =>
+    simp only [hf] at h
+    by_cases h8 : ((v.at (checkRootId v o)).z == 8) = true
+    · simp only [h8, if_true] at h
+      cases h
+      exact Or.inl ⟨by simpa using h8, rfl⟩
+    · simp only [h8, Bool.false_eq_true, if_false] at h
+      by_cases h7 : ((v.at (checkRootId v o)).z == 7) = true
+      · simp only [h7, if_true] at h
+        cases h
+        exact Or.inr ⟨by simpa using h7, rfl⟩
+      · simp only [h7, Bool.false_eq_true, if_false] at h
+        cases h
+
+theorem at_lt_of_z (v : View) (r : Nat) (h : (v.at r).z ≠ 0) : r < v.atoms.length := by
+  rcases Nat.lt_or_ge r v.atoms.length with hlt | hge
+  · exact hlt
+  · exact absurd (by simp [View.at, List.getD, List.getElem?_eq_none hge]) h
+
+/-- **A marked atom is never marked again**: after `mark` has turned atom `r` into a marker (an element other than O and N), every
+    later successful `mark` on the residue – for the same or another position, with any numbering – chooses a different atom. -/
+theorem mark_never_reuses (v : View) (x x' : Numbering) (pos pos' oZ nZ oZ' nZ' r z r' z' : Nat)
+    (hm : oZ ≠ 8 ∧ oZ ≠ 7 ∧ nZ ≠ 8 ∧ nZ ≠ 7)
+    (h1 : markAt v x pos oZ nZ = .ok (r, z)) (h2 : markAt (v.setZ r z) x' pos' oZ' nZ' = .ok (r', z')) : r' ≠ r := by
+  intro e
+  subst e
+  have hz := markAt_elem v x pos oZ nZ r' z h1
+  have hlt : r' < v.atoms.length := at_lt_of_z v r' (by rcases hz with ⟨a, _⟩ | ⟨a, _⟩ <;> omega)
+  have hnew := (setZ_at_self v r' z hlt).1
+  have hz2 := markAt_elem (v.setZ r' z) x' pos' oZ' nZ' r' z' h2
+  rcases hz with ⟨_, rfl⟩ | ⟨_, rfl⟩ <;> rcases hz2 with ⟨a, _⟩ | ⟨a, _⟩ <;> omega
+
 end Gly.EnumC
